@@ -253,6 +253,7 @@ def run_call(D, call, P):
                 if call.get("static"):
                     again = s.sample_points(P)
                     o.extra["static_same"] = bool(again is o.points or torch.equal(again.as_tensor, o.points.as_tensor))
+                    o.extra["last_rows"] = len(again)      # len(sampler) refers to the most recent sample
             try:
                 o.extra["len"] = len(s)
             except Exception as e:
